@@ -6,8 +6,8 @@
    [eval_sp] = Semantic-Pointer arithmetic on the current source values.
    [walg_of rt al] are the shipped algebras, [rt s] standing for sqrt(s). *)
 From mathcomp Require Import all_ssreflect all_algebra.
-From NSpa Require Import Model.Vec Model.Hrr Model.Vtb Model.Algebra Model.Dynamic
-  Theory.DynLin Theory.DynamicLaws Theory.DynamicBuild Theory.DynamicInst.
+From NSpa Require Import Model.Vec Model.Hrr Model.Vtb Model.Algebra Model.Dynamic Model.Transcode
+  Theory.DynLin Theory.DynamicLaws Theory.DynamicBuild Theory.DynamicInst Theory.DynamicStmts.
 Import GRing.Theory.
 Local Open Scope ring_scope.
 
@@ -45,6 +45,16 @@ Theorem C01_several_statements_into_one_sink_add :
     = add_val (eval_sp (walg_of rt al) env_ptr env_scalar e1) (eval_sp (walg_of rt al) env_ptr env_scalar e2).
 Proof. first [exact: shipped_statements_add | by move=> *; exact: shipped_statements_add | by intros; eapply shipped_statements_add; eauto]. Qed.
 Print Assumptions C01_several_statements_into_one_sink_add.
+
+(* any number of statements into one sink *)
+Theorem C01_any_number_of_statements_into_one_sink_add :
+  forall (R : comRingType) (A : walg R) (env_ptr : nat -> seq R) env_scalar src_dim,
+    walg_laws A -> (forall i, size (env_ptr i) = src_dim i) ->
+    forall (e : dexpr R) (es : seq (dexpr R)), builds A src_dim e -> all (builds A src_dim) es ->
+    delivered_all A env_ptr env_scalar src_dim (e :: es)
+    = foldl (fun acc e' => add_val acc (eval_sp A env_ptr env_scalar e')) (eval_sp A env_ptr env_scalar e) es.
+Proof. first [exact: statements_add_n | by move=> *; exact: statements_add_n | by intros; eapply statements_add_n; eauto]. Qed.
+Print Assumptions C01_any_number_of_statements_into_one_sink_add.
 
 (* connect_to with a pending outer transform: np.dot(outer, inner) denotes the composition *)
 Theorem C01_pending_transform_is_applied_to_the_node_value :
@@ -98,6 +108,20 @@ Theorem C01_dynamic_scalar_times_semantic_pointer_refuted :
     = Ok (VP (vscale (env_scalar i) v)).
 Proof. first [exact: scalar_times_semantic_pointer_refuted | by move=> *; exact: scalar_times_semantic_pointer_refuted | by intros; eapply scalar_times_semantic_pointer_refuted; eauto]. Qed.
 Print Assumptions C01_dynamic_scalar_times_semantic_pointer_refuted.
+
+(* Transcode adapters (decision function; the behaviour of every form is tied by the sources / sinks of the simulations) *)
+Theorem C01_transcode_forms_denote_their_vector :
+  forall (R text : Type) (parse_out : text -> result (seq R)) (a p : seq R) (e : text),
+    [/\ extract parse_out (TArray _ a) = Ok a, extract parse_out (TPointer _ p) = Ok p,
+        extract parse_out (TSymbol _ e) = parse_out e & extract parse_out (TString _ e) = parse_out e].
+Proof. by move=> *; exact: extract_forms. Qed.
+Print Assumptions C01_transcode_forms_denote_their_vector.
+
+Theorem C01_transcode_function_of_the_input_pointer :
+  forall (R text : Type) (parse_out : text -> result (seq R)) (g : seq R -> seq R) t x,
+    node_output parse_out true (FTimeInput (fun _ p => TPointer text (g p))) t x = Ok (g x).
+Proof. by move=> *; exact: node_output_of_input_function. Qed.
+Print Assumptions C01_transcode_function_of_the_input_pointer.
 
 (* non-vacuity: the hypothesis [build e = Ok b] is met by a non-trivial expression *)
 Theorem C01_build_succeeds_somewhere :
